@@ -471,16 +471,22 @@ def build(program, h, nodes_out=None):
 
 
 # ---------------------------------------------------------------------- running
+class _Zero:
+    def choose(self, kind, label, n):
+        return 0
+
+
 def run_sync(g, inputs, h, **kw):
     from hypergraph import SyncRunner
 
     runner = kw.pop("runner", None) or SyncRunner(cache=kw.pop("cache", None))
+    method = kw.pop("method", "run")
     with seams.use(h):
-        return runner.run(g, inputs, **kw)
+        return getattr(runner, method)(g, inputs, **kw)
 
 
 def run_async(g, inputs, h, chooser, **kw):
-    """Run under the virtual loop.  ``g`` may be a callable(loop)->Graph built lazily."""
+    """Run under the virtual loop (every release of a parked body is a 'sched' choice of ``chooser``)."""
     from hypergraph import AsyncRunner
 
     from .vloop import VLoop
@@ -489,19 +495,91 @@ def run_async(g, inputs, h, chooser, **kw):
     h.loop = loop
     runner = kw.pop("runner", None) or AsyncRunner(cache=kw.pop("cache", None))
     budget = kw.pop("budget", 200000)
+    method = kw.pop("method", "run")
     try:
         with seams.use(h):
-            graph = g(loop) if callable(g) else g
-            res = loop.run_main(runner.run(graph, inputs, **kw), chooser if chooser is not None else _Zero(), budget=budget)
-        return res
+            coro = getattr(runner, method)(g, inputs, **kw)
+            return loop.run_main(coro, chooser if chooser is not None else _Zero(), budget=budget)
     finally:
         h.loop_exc = list(loop.exc_log)
         loop.close()
 
 
-class _Zero:
-    def choose(self, kind, label, n):
-        return 0
+class Exec:
+    """One execution of the implementation: what the caller observed plus the harness logs."""
+
+    __slots__ = ("result", "exc", "h", "events", "deadlock", "horizon", "warnings", "pruned")
+
+    def __init__(self):
+        self.result = None
+        self.exc = None
+        self.events = None
+        self.deadlock = False
+        self.horizon = False
+        self.warnings = []
+        self.pruned = False
+
+    @property
+    def status(self):
+        if self.exc is not None:
+            return "raised"
+        if isinstance(self.result, list):
+            return "list"
+        return self.result.status.value
+
+    def view(self):
+        """Canonical comparable view (status, values, error identity)."""
+        if self.exc is not None:
+            return ("raised", err_view(self.exc), None)
+        r = self.result
+        if isinstance(r, list):
+            return ("list", tuple((x.status.value, tuple(sorted(x.values.items(), key=repr)), err_view(x.error)) for x in r), None)
+        return (r.status.value, tuple(sorted(r.values.items(), key=repr)), err_view(r.error))
+
+
+def err_view(e):
+    if e is None:
+        return None
+    if isinstance(e, InjectedError):
+        return ("injected", e.nid, e.k)
+    return (type(e).__name__, str(e)[:200])
+
+
+def execute(prog, inputs, *, runner="sync", chooser=None, h=None, graph=None, **kw):
+    """Build (unless ``graph`` given) and run a program once on the real implementation."""
+    from .explorer import Pruned
+    from .vloop import Deadlock, Horizon
+
+    x = Exec()
+    if h is None:
+        h = H(chooser)
+    x.h = h
+    try:
+        g = graph if graph is not None else build(prog, h)
+    except Exception as e:  # noqa: BLE001
+        x.exc = e
+        return x
+    inputs = {k: canon(v) for k, v in inputs.items()}
+    kw = {k: v for k, v in kw.items() if v is not None}
+    with warnings.catch_warnings(record=True) as w:
+        warnings.simplefilter("always")
+        try:
+            if runner == "sync":
+                kw.pop("max_concurrency", None)
+                x.result = run_sync(g, inputs, h, **kw)
+            else:
+                x.result = run_async(g, inputs, h, chooser, **kw)
+        except Deadlock:
+            x.deadlock = True
+        except Horizon:
+            x.horizon = True
+        except Pruned:
+            x.pruned = True
+            raise
+        except Exception as e:  # noqa: BLE001
+            x.exc = e
+    x.warnings = [str(m.message) for m in w]
+    return x
 
 
 def outcome(fn):
